@@ -887,6 +887,14 @@ fn main() {
                     ensure!(d == -1.0 / p, "det() = {:e} but the determinant is -2^-600 (the dense twin gives {:e})", d, dense);
                     Ok(())
                 })),
+                ("extreme-f64 tridiagonal solve sub=[1e200] main=[1,2e200] sup=[0] r=[1e200,0]".to_string(), Box::new(|| {
+                    // row dominant, entries of each row within a factor 3, solution (1e200, -5e199): sub * x0 = 1e400 is formed before the division
+                    let t = Tridiagonal::<f64>::with_vecs(vec![1e200], vec![1.0, 2e200], vec![0.0]);
+                    let x = t.solve(&Vector::create(vec![1e200, 0.0]));
+                    let (x0, x1): (f64, f64) = (x[0], x[1]);
+                    ensure!((x0 / 1e200 - 1.0).abs() <= 1e-12 && (x1 / -5e199 - 1.0).abs() <= 1e-12, "x = {:?} but the solution is (1e200, -5e199)", x.vec);
+                    Ok(())
+                })),
                 ("extreme-f64 tridiagonal solve main=[1e200,1] sup=[1e-150] r=[2e150,1e300]".to_string(), Box::new(|| {
                     // strictly row dominant, upper triangular: x = (1e-50, 1e300)
                     let t = Tridiagonal::<f64>::with_vecs(vec![0.0], vec![1e200, 1.0], vec![1e-150]);
